@@ -225,7 +225,7 @@ TOut ==
 TCrash ==
     /\ l <= N /\ Tr[l].e = "CRASH"
     /\ l' = l + 1
-    /\ viol' = Note([l |-> l, prop |-> "C01,C02,C12,C13", what |-> "implementation crashed: " \o Tr[l].what])
+    /\ viol' = Note([l |-> l, prop |-> "C01,C02,C12,C13,C20,C03", what |-> "implementation crashed: " \o Tr[l].what])
     /\ lost' = TRUE
     /\ UNCHANGED <<ex, execs>>
 
